@@ -343,6 +343,11 @@ def failing_op(rng, st_depth_hint=0):
         ["OP_FROMALTSTACK"] if st_depth_hint == 0 else ["OP_RETURN"],
         [1, 2, "OP_NUMEQUALVERIFY"],
         ["OP_VERIF"],
+        # a conditional that is never closed: every operation succeeds, the script fails when it ends
+        [1, "OP_IF"],
+        [0, "OP_NOTIF"],
+        [0, "OP_IF", "OP_ELSE"],
+        [1, "OP_IF", 0, "OP_IF"],
     ])
 
 
